@@ -592,6 +592,14 @@ example (ρ : ExtOracle natOps) (hρ : Sem.HeapU.OracleFlat ρ) (n : Nat) (hac :
   bundle_refines_partial_unrequired ρ hρ _ exUnrequired n (fun _ => rfl) (by decide) (by decide) (by simp [exUnrequired])
     (by intro nb hnb; simp [exUnrequired] at hnb; subst hnb; exact hac) (by decide)
 
+/-- at the oracle the harness runs (`Shared.driverOracle`) no hypothesis on the oracle is left -/
+theorem bundle_refines_partial_unrequired_driver (externs : List String) (I : BundleInput) (n : Nat)
+    (hres : ∀ lit, I.res lit = none) (hMv : I.M ≠ "v") (hMI : I.M ≠ implName)
+    (hnodup : (I.mods.map fun nb => bytesOf nb.1).Nodup) (hcache : ∀ nb ∈ I.mods, bytesOf nb.1 ≠ bytesOf "cache")
+    (hentry : I.reservedOK I.entry = true) :
+    runProgram Shared.driverOracle (n + 1) externs I.bundle = runProgram Shared.driverOracle (n + 1) externs I.reference :=
+  bundle_refines_partial_unrequired _ Sem.HeapU.driverOracle_flat externs I n hres hMv hMI hnodup hcache hentry
+
 end unrequired
 
 /-- **`bundle_refines_partial`** (one module): the statements the bundler puts in front of the entry
